@@ -85,4 +85,51 @@ theorem seqOfSetIdx_kernel (st : SeqOfSt) (i : Int) :
   have : GenK.seqOfSetIdx (SeqOf.len st : Int) i = GenK.seqOfGetIdx (SeqOf.len st : Int) i := rfl
   rw [this, seqOfGetIdx_kernel]
 
+/-! ### what an ANY field captures (`AnyPayloadDecoder.valueDecoder`) -/
+
+theorem readN_mid (a b c : Bytes) :
+    Py.readN (bytesInts (a ++ b ++ c)) ((a.length : Nat) : Int) ((b.length : Nat) : Int) = .ok (bytesInts b) := by
+  unfold Py.readN
+  have hl : (bytesInts (a ++ b ++ c)).length = a.length + b.length + c.length := by simp [bytesInts, Nat.add_assoc]
+  have e1 : ((a.length : Nat) : Int).toNat = a.length := by omega
+  have e2 : ((b.length : Nat) : Int).toNat = b.length := by omega
+  rw [e1, e2, hl]
+  have : a.length + b.length ≤ a.length + b.length + c.length := by omega
+  simp only [this, if_true, pure, Except.pure]
+  congr 1
+  have hm : (bytesInts (a ++ b ++ c)).drop a.length = bytesInts (b ++ c) := by
+    show ((a ++ b ++ c).map _).drop _ = (b ++ c).map _
+    rw [← List.map_drop, List.append_assoc, List.drop_left]
+  rw [hm]
+  show ((b ++ c).map _).take _ = b.map _
+  rw [← List.map_take, List.take_left]
+
+/-- **an untagged ANY captures the whole element, header included** (the translated `AnyPayloadDecoder.valueDecoder`, the
+    substrate being the complete input): with the mark at the element's first octet, the stream after its header and the
+    declared length that of its contents, the value is header ++ contents exactly - nothing before, nothing after - and the
+    stream ends up right behind the element -/
+theorem anyCapture_untagged (pre hdr content rest : Bytes) :
+    GenK.anyCapture ((pre.length : Nat) : Int) (bytesInts (pre ++ (hdr ++ content) ++ rest))
+        (((pre.length + hdr.length : Nat)) : Int) true ((content.length : Nat) : Int) =
+      .ok (bytesInts (hdr ++ content), ((pre.length + hdr.length + content.length : Nat) : Int)) := by
+  unfold GenK.anyCapture
+  simp only [if_true, bind, Except.bind, pure, Except.pure]
+  have e : ((content.length : Nat) : Int) + ((((pre.length + hdr.length : Nat)) : Int) - ((pre.length : Nat) : Int)) =
+      (((hdr ++ content).length : Nat) : Int) := by simp [List.length_append]; omega
+  rw [e, readN_mid pre (hdr ++ content) rest]
+  simp only [List.length_append]
+  congr 2
+  omega
+
+/-- a tagged ANY (its own tag matched the header): the contents only -/
+theorem anyCapture_tagged (pre hdr content rest : Bytes) (mark : Int) :
+    GenK.anyCapture mark (bytesInts ((pre ++ hdr) ++ content ++ rest))
+        (((pre.length + hdr.length : Nat)) : Int) false ((content.length : Nat) : Int) =
+      .ok (bytesInts content, ((pre.length + hdr.length + content.length : Nat) : Int)) := by
+  unfold GenK.anyCapture
+  simp only [Bool.false_eq_true, if_false, bind, Except.bind, pure, Except.pure]
+  have e : (((pre.length + hdr.length : Nat)) : Int) = (((pre ++ hdr).length : Nat) : Int) := by simp [List.length_append]
+  rw [e, readN_mid (pre ++ hdr) content rest]
+  simp only [List.length_append, Int.natCast_add]
+
 end Asn1.Kernels
